@@ -14,20 +14,28 @@ from pathlib import Path
 from queue import Queue
 
 BEN = Path("/verif/benign")
+# which checks exercise which source file (used by `--checks auto`: the focus property's check + the checks of the files a patch touches)
+TOUCH = {
+    "tracker.py": "C01 C09 C10 C11 C14 C15 C17 C19", "ROMS.py": "C01 C02 C03 C08 C09 C10 C12 C14 C15 C16 C17 C20", "release.py": "C04 C07 C08 C10 C14 C19 C20",
+    "out_netcdf.py": "C05 C06 C07 C08 C10 C16 C19", "state.py": "C04 C05 C06 C08", "configure.py": "C08 C18 C20", "model.py": "C06 C07 C14 C19 C20",
+    "main.py": "C07 C18 C19 C20", "timekeeper.py": "C06 C07 C10 C13", "sample.py": "C14 C16", "warm_start.py": "C08 C19", "analytical.py": "C01", "grid.py": "C16 C20",
+}
 ONLY = None
 ROOT = Path(os.environ.get("BNW", "/tmp/bnw"))
 ALL = [f"C{k:02d}" for k in range(1, 21)]
 args = sys.argv[1:]
-J, checks, BASE = 3, ALL, "HEAD"
+J, checks, BASE, WAVE = 3, ALL, "HEAD", "b5"
 while args and args[0].startswith("-"):
     if args[0] == "-j":
         J = int(args[1]); args = args[2:]
     elif args[0] == "--base":  # another base commit (a change written against an older tree that does not apply to HEAD)
         BASE = args[1]; args = args[2:]
+    elif args[0] == "--wave":  # name suffix of the stored change: <NAME>_<wave>_<k>
+        WAVE = args[1]; args = args[2:]
     elif args[0] == "--only":  # NAME_b5_k,... restrict to these
         ONLY = args[1].split(","); args = args[2:]
     elif args[0] == "--checks":
-        checks = ALL if args[1] == "all" else args[1].split(","); args = args[2:]
+        checks = ALL if args[1] == "all" else ["auto"] if args[1] == "auto" else args[1].split(","); args = args[2:]
 src = Path(args[0]); names = args[1:]
 sh = lambda c, **k: subprocess.run(c, shell=True, capture_output=True, text=True, **k)  # noqa: E731
 head = sh(f"git -C /repo rev-parse --short {BASE}").stdout.strip()
@@ -58,7 +66,7 @@ for n in names:
     for bd in sorted((src / n).glob("benign_*")):
         if (bd / "patch.diff").exists():
             k = bd.name.split("_")[1]
-            dst = BEN / f"{n}_b5_{k}"
+            dst = BEN / f"{n}_{WAVE}_{k}"
             dst.mkdir(parents=True, exist_ok=True)
             for f in ("patch.diff", "demo.py", "notes.md"):
                 if (bd / f).exists() and not (dst / f).exists():
@@ -93,7 +101,11 @@ def one(dst):
                     alarms.append(f"demo rc={d.returncode}: {(d.stdout + d.stderr)[-200:]}")
             env = dict(os.environ, PYTHONPATH=str(wt), LADIM2_VERIF_REPO=str(wt), LADIM2_VERIF_OUT=str(ROOT / f"out_{wt.name}"))
             res = {}
-            for p in checks:
+            todo = checks
+            if checks == ["auto"]:
+                files = re.findall(r"^\+\+\+ b/ladim/(\S+)", (dst / "patch.diff").read_text(), re.M)
+                todo = sorted({dst.name[:3]} | {c for f in files for c in TOUCH.get(f, " ".join(ALL)).split()})
+            for p in todo:
                 o = subprocess.run(f"./check {p} --tier quick", shell=True, cwd="/verif", capture_output=True, text=True, env=env)
                 res[p] = o.returncode
                 if o.returncode != 0:
